@@ -698,7 +698,16 @@ func (fc *FnCtx) deferredCall(d deferRec, c *ssa.CallCommon, st *State, g *smt.T
 		return
 	}
 	if cs := fc.P.Contract[name]; cs != nil {
-		fc.applyContract(cs, name, args, resT, st, g, where)
+		// a deferred call is a site of its own kind: "defer <callee>", numbered in the
+		// order the deferred calls run (clauses: called("defer f", k), assert@call(defer f))
+		dn := "defer " + name
+		fc.callOrd[dn]++
+		key := fmt.Sprintf("%s#%d", dn, fc.callOrd[dn])
+		fc.callGuard[key] = g
+		if !fc.dry {
+			fc.callAsserts(dn, fc.callOrd[dn], true, args, nil, c, d.instr, st, g, where)
+		}
+		fc.callRes[key] = fc.applyContract(cs, name, args, resT, st, g, where)
 		return
 	}
 	if fn != nil && fn.Parent() == fc.Fn && fc.inlineDeferred(fn, d, st, g, where) {
